@@ -3,6 +3,7 @@
    style strings with what auto.New(style) turned out to be and how a good
    table rendered through it. *)
 From Tab Require Export Run.C17Run.
+From Tab Require Export Model.DecorCells.   (* round 6: a registered decoration arrives as its string fields, [abstract id (mkCD fields)] *)
 
 Record c19_query := Q {
   q_style : bytes;
